@@ -15,8 +15,10 @@ sys.dont_write_bytecode = True
 sys.path.insert(0, os.path.dirname(os.path.abspath(__file__)))
 import mutcheck as mc
 
+RELEASE = False
+
 def demo(feature_uuid):
-    cmd = ["cargo", "test", "--offline", "--test", "seed_demo"] + (["--features", "uuid"] if feature_uuid else [])
+    cmd = ["cargo", "test", "--offline", "--test", "seed_demo"] + (["--features", "uuid"] if feature_uuid else []) + (["--release"] if RELEASE else [])
     r = mc.sh(cmd, cwd=mc.REPO, timeout=1800)
     ok = "test result: ok" in r.stdout and "FAILED" not in r.stdout and "error" not in r.stdout.split("test result")[0][-300:]
     compiled = "could not compile" not in r.stdout
@@ -36,6 +38,9 @@ def main():
     meta = json.load(open(os.path.join(sdir, "meta.json")))
     patch = os.path.join(sdir, "patch.diff")
     uuid_feature = "uuid" in json.dumps(meta).lower() and prop == "C18"
+    # a change that only shows without debug assertions / overflow checks: its demo is run with --release
+    global RELEASE
+    RELEASE = "--release" in (meta.get("needs", "") + " ".join(meta.get("ran", []))) and "--release" in meta.get("needs", "")
     mc.setup()
     ran = []
     try:
